@@ -405,6 +405,24 @@ class Driver:
                     ids += [i.identity for i in schd.pool.get_tasks()
                             if i.state.is_runahead
                             and i.state.status == 'waiting'][-2:]
+                elif t == '@finished-group':
+                    # a pooled finished (retained) task and up to two
+                    # instances that have a prerequisite on it
+                    fin = [i for i in schd.pool.get_tasks()
+                           if i.state.status in ('failed', 'succeeded',
+                                                 'submit-failed')]
+                    gt = self.case['gt']
+                    if fin and gt.get('sections'):
+                        from vlib.e1.monitors2 import gt_children
+                        x = fin[-1]
+                        kids = set()
+                        td = gt['tasks'].get(x.tdef.name) or {}
+                        for o in ['submitted', 'started', 'succeeded',
+                                  'failed'] + list(td.get('outputs') or []):
+                            kids |= gt_children(gt, x.tdef.name,
+                                                int(str(x.point)), o)
+                        ids.append(x.identity)
+                        ids += sorted(f'{q}/{c}' for c, q in kids)[:2]
                 elif not str(t).startswith('@'):
                     ids.append(t)
             if not ids:
